@@ -56,7 +56,7 @@ def ob_token(variant):
             dsum = sum((v1 - v0) for _, v0, v1 in ch) if ch else 0
             cl.append((dsum == (sum(a for _, a in mirror) if mirror else 0), 'total mirrored = change of the token supply', 'bsei:%s:total' % variant))
             ctx.require_all(st, cl, W.mv)
-            ctx.witness('bsei %s Ok' % variant, st, True, W.mv)
+            ctx.witness('bsei %s Ok' % variant, st, True, W.mv, expect='ok')
             if len(ch) >= 1 and variant in ('Transfer', 'Send', 'TransferFrom', 'SendFrom'):
                 ctx.witness('bsei %s to self (aliasing)' % variant, st, [z3.BoolVal(len(ch) == 1)], W.mv)
         ctx.need_witness('Ok path of bsei ' + variant, nok > 0)
@@ -97,7 +97,7 @@ def ob_reward(variant):
                   (z3.Implies(z3.And(d, z3.Not(is_c)), z3.And(b_o1 == b_o0 + sign * amount, b_c1 == b_c0)), 'only the addressed holder changes', 'reward:%s:other' % variant),
                   (p['T'] == W.total_balance + sign * amount, 'total staking balance changes by exactly the amount', 'reward:%s:total' % variant)]
             ctx.require_all(st, cl, W.mv)
-            ctx.witness('reward %s Ok' % variant, st, True, W.mv)
+            ctx.witness('reward %s Ok' % variant, st, True, W.mv, expect='ok')
         ctx.need_witness('Ok path of reward ' + variant, nok > 0)
     return ob
 
